@@ -613,7 +613,13 @@ def g8(ctx):
                             r = strip_role(sub.role_of_operand(a_))
                             if isinstance(r, tuple) and r[0] == "call" and r[1] in ("compose", "compose_partial", "compose_fresh") and len(r[3]) == 2:
                                 maps.append((sub, x, r))
-            ctx.floor("slot-map lookups in the symmetry transport of " + C.short(fid), len(maps), 1)
+            if not maps:
+                seen_ = sorted({role_str(strip_role(sub.role_of_operand(x.args[0])))[:70] for sub in b.all_bodies() if sub is not b for x in sub.calls
+                                if x.callee and x.callee.name in ("index", "get", "contains_key") and x.args and not sub.blocks[x.bb]["cleanup"]})
+                ctx.bad("transport-map-direction:" + C.fkey(b),
+                        "%s renames the generators of %s through %s, which is not the composition %s.m ; %s.m^-1 of the two invocations' maps: only that composition pairs a slot of the deprecated class with the survivor's slot that is instantiated with the SAME argument. Any other pairing (by position in key order, by name) is right only when the two classes' slot names happen to sort alike — the survivor gets a permutation that is not a symmetry, depending on how the user's names sort" % (
+                            C.short(fid), role_str(F), seen_ or "no slot-map lookup", role_str(F), role_str(T)), where_of(b, c.bb))
+                continue
             for sub, x, r in maps:
                 a0 = strip_role(r[3][0])
                 a1 = strip_role(r[3][1])
